@@ -262,6 +262,17 @@ impl Acc {
             self.prev = Some((m, atoms, up, eps));
         }
     }
+    /// add an error of weight `w` to the checkpoints with index in [lo, hi)
+    fn add_range_err(&mut self, lo: usize, hi: usize, w: f64) {
+        let hi = hi.min(self.k);
+        if lo >= hi || w <= 0.0 {
+            return;
+        }
+        self.err[lo] += w;
+        self.err[hi] -= w;
+        self.errh[lo] += w;
+        self.errh[hi] -= w;
+    }
     /// break the adjacency chain (children that are not neighbours in the word order)
     fn cut(&mut self) {
         if self.prev.is_some() {
@@ -292,6 +303,36 @@ impl Acc {
             }
         }
         Res { atoms: smallvec![], dense: Some(self.dense), ups: self.ups, resid: self.resid, bad: self.bad, words: self.words, err, err_hi: errh, err_up: self.err_up, vlevels: self.vlevels, flat: self.flat }
+    }
+}
+
+/// Tracks leaf values along an alphabet: at a local extremum of the output between sample points the
+/// function may go beyond the sampled extreme value, which the variation bound cannot see.
+#[derive(Default)]
+struct Turn {
+    prev2: Option<(f64, f64)>,
+    prev: Option<(f64, f64)>,
+}
+impl Turn {
+    fn reset(&mut self) {
+        self.prev2 = None;
+        self.prev = None;
+    }
+    fn leaf(&mut self, v: f64, m: f64, acc: &mut Acc, grid: &Grid) {
+        if let (Some((v2, m2)), Some((v1, m1))) = (self.prev2, self.prev) {
+            if v1 < v2 && v1 < v {
+                // local minimum near the middle sample: values below v1 may be hidden
+                acc.add_range_err(0, grid.bin(v1) as usize, 0.5 * (m2 + m) + m1);
+            } else if v1 > v2 && v1 > v {
+                acc.add_range_err(grid.bin(v1) as usize, grid.k(), 0.5 * (m2 + m) + m1);
+            }
+        }
+        if self.prev.map(|p| p.0 != v).unwrap_or(true) {
+            self.prev2 = self.prev;
+            self.prev = Some((v, m));
+        } else if let Some(p) = self.prev.as_mut() {
+            p.1 += m;
+        }
     }
 }
 
@@ -332,6 +373,9 @@ struct Probe {
 struct PathNode {
     len: usize,
     probes: Vec<Probe>,
+    /// suffix scripts around the boundaries of this node's own word (plus the extreme words), with the
+    /// outcome of the node on them: a restart claim must reproduce them
+    bscripts: Vec<(Vec<u64>, Probe)>,
 }
 
 #[derive(Clone)]
@@ -656,6 +700,35 @@ impl<'a> Explorer<'a> {
                 }
             }
             if ok {
+                // the ancestor's own boundary scripts and the extreme words must behave identically (up to the shift)
+                let sh0 = shift.unwrap_or(0);
+                if path[ai].bscripts.len() < 2 {
+                    for w in [0u64, !0u64] {
+                        let mut sc = p[..alen].to_vec();
+                        sc.push(w);
+                        let e = self.exec(&sc, 1, false);
+                        let pr = Self::probe_of(&e, sc.len());
+                        path[ai].bscripts.push((vec![w], pr));
+                    }
+                }
+                let nb = path[ai].bscripts.len();
+                let mut sc = p.to_vec();
+                for bi in 0..nb {
+                    let (suf, a) = path[ai].bscripts[bi].clone();
+                    sc.truncate(p.len());
+                    sc.extend_from_slice(&suf);
+                    let e = self.exec(&sc, 1, false);
+                    let q = Self::probe_of(&e, sc.len());
+                    let same = a.kind == q.kind && a.rel_req == q.rel_req && if a.kind == 0 {
+                        if sh0 == 0 { a.bits == q.bits } else { q.v - a.v == sh0 as f64 }
+                    } else { a.bits == q.bits };
+                    if !same {
+                        ok = false;
+                        break;
+                    }
+                }
+            }
+            if ok {
                 let sh = shift.unwrap_or(0);
                 if sh >= 0 && sh < i32::MAX as i64 {
                     if let Some(k) = ckey {
@@ -729,7 +802,7 @@ impl<'a> Explorer<'a> {
         if let Some(r) = self.memo_lookup(sig, p, path) {
             return r;
         }
-        path.push(PathNode { len: p.len(), probes });
+        path.push(PathNode { len: p.len(), probes, bscripts: vec![] });
         self.collectors.push(WitCollector { base: p.len(), items: vec![], stride: 1, seen: 0 });
         self.cnt.nodes += 1;
         let execs_before = self.cnt.execs;
@@ -859,9 +932,14 @@ impl<'a> Explorer<'a> {
                 if let Some(alpha) = alpha {
                     self.cnt.macro_nodes += 1;
                     let mut acc = Acc::new(self.grid.k(), true, self.cfg.collect_flat);
+                    let mut turn = Turn::default();
                     for a in alpha.iter() {
                         p.extend_from_slice(&a.words);
                         let cls = self.classify(p, path);
+                        match &cls {
+                            Class::Leaf { v, bad: false, .. } => turn.leaf(*v, a.mass + a.eps, &mut acc, self.grid),
+                            _ => turn.reset(),
+                        }
                         let r = self.child_res(p, path, cls, node_len, vdepth + 1);
                         acc.add(a.mass, &r, a.eps, &a.words);
                         p.truncate(node_len);
@@ -988,6 +1066,17 @@ impl<'a> Explorer<'a> {
             }
             if jb - ja == 1 {
                 self.cnt.boundaries += 1;
+                if let Some(node) = path.last_mut() {
+                    if node.len == node_len && node.bscripts.len() < 24 {
+                        for j in [ja, jb] {
+                            p.push(Self::word53(j));
+                            let e = self.exec(p, 1, false);
+                            let pr = Self::probe_of(&e, p.len());
+                            p.pop();
+                            node.bscripts.push((vec![Self::word53(j)], pr));
+                        }
+                    }
+                }
                 if self.boundary_scripts.len() < 64 {
                     let mut s = p.clone();
                     s.push(Self::word53(ja));
@@ -1199,6 +1288,9 @@ impl<'a> Explorer<'a> {
                 }
                 if all_ok {
                     acc.add(mass, &r, 0.0, &[w]);
+                } else if nr > 4 {
+                    // many bands whose interior is not uniform: this is a value-producing word; explore it as a lattice level
+                    return None;
                 } else {
                     // the word matters on this interval: lattice inside it
                     let r2 = self.lattice_range(p, path, vdepth, start, end);
@@ -1323,6 +1415,7 @@ impl<'a> Explorer<'a> {
         let (mut last_kind, mut switches) = (0u8, 0u32);
         let (mut last_v, mut last_dir, mut dir_changes) = (f64::NAN, 0i8, 0u32);
         let mut max_cell = 0.0f64;
+        let mut turn = Turn::default();
         for &(lo, hi) in &cells {
             let j = lo + (hi - lo) / 2;
             let wv = Self::word53(j);
@@ -1349,9 +1442,13 @@ impl<'a> Explorer<'a> {
                 }
                 last_kind = kind;
             }
+            let m = (hi - lo) as f64 / tot;
+            match &cls {
+                Class::Leaf { v, bad: false, .. } => turn.leaf(*v, m, &mut acc, self.grid),
+                _ => turn.reset(),
+            }
             let r = self.child_res(p, path, cls, node_len, vdepth + 1);
             p.pop();
-            let m = (hi - lo) as f64 / tot;
             max_cell = max_cell.max(m);
             acc.add(m, &r, 0.0, &[wv]);
         }
@@ -1479,7 +1576,7 @@ impl<'a> Explorer<'a> {
             Class::More { probes, .. } => probes,
             _ => return None,
         };
-        path.push(PathNode { len: 0, probes });
+        path.push(PathNode { len: 0, probes, bscripts: vec![] });
         self.cnt.nodes += 1;
         let mut acc = Acc::new(self.grid.k(), true, self.cfg.collect_flat);
         let st = strata as u64;
